@@ -11,7 +11,7 @@ CHECKS = {
              "flavour; checks that the implementation-shaped CVaR (argsort/floor/remainder) refines the declarative tail-mass "
              "definition; every enumerated scenario is replayed through DefaultRealizationFilter and EnsembleEvaluator and "
              "each recorded result is judged by the TLA+ trace validator (Trace_C04), plus all k/D (D<=20) float percentiles.",
-        note="Bounded instance; floats projected to fractions (denominator<=1e5, 1e-7); ties accepted in any order.",
+        note="Bounded instance; floats projected to fractions (denominator<=1e5, 1e-7); ties accepted in any order. Thorough: the n<=6 instance (3 million behaviours) is model-checked completely and every third behaviour is replayed (offset by VERIF_SEED).",
         design="4 (C04)"),
 }
 
